@@ -146,6 +146,10 @@ def store_strategy():
                 st.lists(st.tuples(nsidx, key, _value()).map(list),
                          max_size=2)),
       st.tuples(st.just('complete'), st.integers(0, 5)),
+      # the sibling study (if the case has one) gets another trial: its rows
+      # are then newer than those of same-numbered trials of the main study
+      st.tuples(st.just('sibling_trial')),
+      st.tuples(st.just('sibling_trial')),
   ).map(list)
   return st.fixed_dictionaries({
       'backend': st.sampled_from(['ram', 'sqlmem']),
@@ -206,7 +210,7 @@ def check_store(case):
     if case.get('sibling'):
       out.cls('sibling_study')
       sib = svc.create_study(s, 'o', 's2')
-      for k_ in range(4):
+      for k_ in range(2):
         t_ = svc.params_to_trial_proto(svc.det_params(40 + k_))
         t_.metadata.add(key='sib', value='t%d' % k_)
         s.CreateTrial(vsp.CreateTrialRequest(parent=sib.name, trial=t_))
@@ -386,6 +390,13 @@ def check_store(case):
         t = s.CreateTrial(vsp.CreateTrialRequest(parent=sname, trial=t))
         trials.append(int(t.id))
         commit([(int(t.id), ns, key, v) for (ns, key), v in init.items()])
+      elif kind == 'sibling_trial':
+        if sibling_snapshot is not None:
+          t_ = svc.params_to_trial_proto(svc.det_params(50 + step))
+          t_.metadata.add(key='sib', value='later%d' % step)
+          s.CreateTrial(vsp.CreateTrialRequest(parent=sib.name, trial=t_))
+          sibling_snapshot = sibling_state()
+          out.cls('sibling_trial_added_later')
       elif kind == 'complete':
         if trials:
           tid = trials[op[1] % len(trials)]
@@ -635,6 +646,7 @@ def families(tier):
                                     'algorithm_write_with_zero_suggestions',
                                     'via_raw', 'via_client',
                                     'ram', 'sqlmem', 'sibling_study',
+                                    'sibling_trial_added_later',
                                     'interleaved_trials_in_one_delta')),
       core.Family('inram_store', check_inram, strategy=inram_strategy,
                   budget={'quick': 1200, 'thorough': 30000},
